@@ -253,9 +253,11 @@ fn gen_cbor_header_lengths(_ctx: &Ctx, targets: &[Target], thorough: bool, emit:
             }
         }
     }
-    for it in &items {
-        for ctx in 0u8..4 {
-            for (ti, wrap) in &tg {
+    // target-major order: a forked worker stays on one decoder for a long stretch (the fatal inputs
+    // of the allocation defect cluster per decoder, and only the wasm stretch initialises a kernel)
+    for (ti, wrap) in &tg {
+        for it in &items {
+            for ctx in 0u8..4 {
                 emit(*ti, &|| wrap(&build_form(it, ctx)));
             }
         }
@@ -302,17 +304,18 @@ fn gen_nesting(_ctx: &Ctx, targets: &[Target], thorough: bool, emit: Emit) {
     let tg = cbor_targets(targets, thorough);
     let names = by_name(targets);
     for shape in SHAPES {
-        for p in 0..=max_pow {
-            let input = nested(shape, 1usize << p);
-            if shape == "le-option" {
-                for n in ["le-codec:option-u8", "le-codec:record", "le-codec:list-bool"] {
-                    if let Some(&ti) = names.get(n) {
-                        emit(ti, &|| input.clone());
+        if shape == "le-option" {
+            for n in ["le-codec:option-u8", "le-codec:record", "le-codec:list-bool"] {
+                if let Some(&ti) = names.get(n) {
+                    for p in 0..=max_pow {
+                        emit(ti, &|| nested(shape, 1usize << p));
                     }
                 }
-            } else {
-                for (ti, wrap) in &tg {
-                    emit(*ti, &|| wrap(&input));
+            }
+        } else {
+            for (ti, wrap) in &tg {
+                for p in 0..=max_pow {
+                    emit(*ti, &|| wrap(&nested(shape, 1usize << p)));
                 }
             }
         }
